@@ -78,7 +78,7 @@ def r1(ctx, R):
     }
     for name, ok in allowed.items():
         cs = callers_by_name(name)
-        R.need(cs, "no caller of %s found" % name)
+        R.must(cs, "no caller of %s found" % name)
         R.slot("callers_of_" + name, sorted({f.short for f, _ in cs}))
         for f, c in cs:
             R.inst("caller of %s: %s" % (name, f.short))
@@ -89,7 +89,7 @@ def r1(ctx, R):
     en = ctx.func("NonThreadedExecutor.eval_node")
     cfg = en.cfg
     miss = q.calls(en, name=("_eval_formula", "_start_exec"))
-    R.need(len(miss) >= 2, "eval_node: expected calls of _eval_formula and _start_exec")
+    R.must(len(miss) >= 2, "eval_node: expected calls of _eval_formula and _start_exec")
     t_has = [n for n in cfg.nodes if n.kind == "test" and q.mentions_call(n.ast, "has_node")]
     t_cached = [n for n in cfg.nodes if n.kind == "test" and norm(n.ast).endswith(".is_cached")]
     R.inst("eval_node: the held-value decision is a membership test (has_node) on a cached cells")
@@ -135,7 +135,7 @@ def r1(ctx, R):
                 R.bad(en, m, "a cached cells can reach the formula without the held-value test")
     # hit path returns data[key]
     rets = q.returns(en)
-    R.need(len(rets) == 1 and isinstance(rets[0].value, ast.Name), "eval_node: expected `return <name>`")
+    R.must(len(rets) == 1 and isinstance(rets[0].value, ast.Name), "eval_node: expected `return <name>`")
     var = rets[0].value.id
     hit_assign = []
     for n in walk_local(en.node):
@@ -194,7 +194,7 @@ def r2(ctx, R):
         if rb is not None:
             R.bad(fi, rb, "parameter `key` is re-bound before it is used as the storage key")
         fcs = formula_calls(fi)
-        R.need(fcs, "%s: no formula call" % spec)
+        R.must(fcs, "%s: no formula call" % spec)
         for c in fcs:
             R.inst("%s: formula called with exactly *key" % spec)
             ok = (len(c.args) == 1 and isinstance(c.args[0], ast.Starred)
@@ -244,7 +244,7 @@ def r2(ctx, R):
                     R.bad(sp, r_, "on_eval_formula returns an object other than the stored ItemSpace")
     ef = ctx.func("NonThreadedExecutor._eval_formula")
     c = q.calls(ef, name="on_eval_formula")
-    R.need(len(c) == 1, "_eval_formula: on_eval_formula call not found")
+    R.must(len(c) == 1, "_eval_formula: on_eval_formula call not found")
     R.inst("_eval_formula: on_eval_formula(node[KEY]) on node[OBJ] of the pushed node")
     recv = call_recv(c[0])
     arg = c[0].args[0] if c[0].args else None
@@ -471,7 +471,7 @@ def r4(ctx, R):
     for spec in ("BoundFunction._refresh", "CellsBoundFunction._refresh"):
         fi = ctx.func(spec)
         ft = q.calls(fi, name="FunctionType")
-        R.need(len(ft) == 1, "%s: FunctionType call not found" % spec)
+        R.must(len(ft) == 1, "%s: FunctionType call not found" % spec)
         g = ft[0].args[1] if len(ft[0].args) > 1 else None
         R.inst("%s: globals derive from self.owner.namespace.interfaces" % spec)
         src = None
